@@ -140,6 +140,10 @@ func docxRun(b *strings.Builder, ch Child, cnt *counter, o Origin, bold bool) {
 			b.WriteString("<w:tab/>")
 		case "br":
 			b.WriteString("<w:br/>")
+		case "eh": // the header line written in the body
+			fmt.Fprintf(b, "<w:t>%s</w:t>", TokText(HdrTok))
+		case "ef":
+			fmt.Fprintf(b, "<w:t>%s</w:t>", TokText(FtrTok))
 		default:
 			panic("wpw: atom " + a + " is not in the DOCX alphabet")
 		}
